@@ -29,6 +29,9 @@ def site_scenario(case):
     loop = sessions.new_loop()
     try:
         class S(session.RPCSession):
+            if case.get('form') == 'queued_then_zero':
+                initial_concurrent = 1
+
             async def handle_request(self, request):
                 await asyncio.sleep(1000)
         proto, ft, s = sessions.attach(S, kind='server' if case['site'] == 'handler' else 'client', transport=case['transport'],
@@ -82,6 +85,31 @@ def site_scenario(case):
                 # the library's own request-handling task (inside timeout_after(processing_timeout) and the slot limiter)
                 await sessions.settle(3)
                 form = case.get('form', 'request')
+                if form == 'queued_then_zero':
+                    # one slot, held by a first request; a second request is QUEUED for a slot (inside the library's
+                    # timeout_after(processing_timeout)); then the session's cost passes the hard limit - the limiter's target is
+                    # zero - and only then the queued handler task is cancelled from outside
+                    proto.data_received(b'{"jsonrpc":"2.0","method":"m","params":[],"id":1}\n')
+                    await sessions.settle(6)
+                    proto.data_received(b'{"jsonrpc":"2.0","method":"m","params":[],"id":2}\n')
+                    await sessions.settle(6)
+                    hts = [x for x in asyncio.all_tasks(loop) if '_throttled_request' in getattr(x.get_coro(), '__qualname__', '')]
+                    queued = [x for x in hts if getattr(x.get_coro().cr_frame.f_locals.get('request'), 'args', None) is not None
+                              and x.get_coro().cr_frame.f_locals['request'] is not None and len(hts) == 2][-1:]
+                    if len(hts) != 2 or not queued:
+                        return {'delivered': False, 'task': None, 'member': None, 'hung': False, 'note': 'handler tasks not found'}
+                    t = max(hts, key=lambda x: x.get_name())
+                    await asyncio.sleep(case['cancel_at'] / 2)
+                    s.cost = s.cost_hard_limit + 1000
+                    s.recalc_concurrency()
+                    await asyncio.sleep(case['cancel_at'] / 2)
+                    delivered = not t.done()
+                    t.cancel()
+                    await sessions.settle(10)
+                    await asyncio.sleep(0.5)
+                    return {'delivered': delivered, 'task': 'still running' if not t.done() else 'cancelled' if t.cancelled() else
+                            ('normal' if t.exception() is None else type(t.exception()).__name__), 'member': None, 'hung': not t.done(),
+                            'limiter_target': s._incoming_concurrency.max_concurrent}
                 proto.data_received({'request': b'{"jsonrpc":"2.0","method":"m","params":[],"id":1}\n',
                                      'notification': b'{"jsonrpc":"2.0","method":"m","params":[]}\n',
                                      'batch_notification': b'[{"jsonrpc":"2.0","method":"m","params":[]}]\n',
@@ -320,7 +348,7 @@ class C12(Prop):
                                 out.append(Failure(case, obs, cl))
         for tr in ('rs', 'us'):
             for cancel_at in (0.05, 1.0):
-                for form in ('notification', 'batch_notification', 'batch_request'):
+                for form in ('notification', 'batch_notification', 'batch_request', 'queued_then_zero'):
                     for lower in (False, True):
                         case = {'site_scenario': True, 'site': 'handler', 'wrap': 'lowered' if lower else 'none', 'as_member': False, 'cancel_at': cancel_at,
                                 'transport': tr, 'lower': lower, 'form': form}
